@@ -13,6 +13,7 @@ import (
 	"strconv"
 	"strings"
 	"sync"
+	"sync/atomic"
 	"time"
 
 	legacy "github.com/evanphx/json-patch"
@@ -42,7 +43,20 @@ func emit(format string, a ...interface{}) {
 
 const hangAfter = 180 * time.Second
 
+// a call that has not returned after hangAfter is reported as "hang"; its goroutine cannot
+// be stopped and keeps a core busy, so later waits are shorter and after three hangs the
+// stream ends (a hang is a violation already; the lines written so far are kept)
+var hangs atomic.Int32
+
 func guarded(f func() string) string {
+	if hangs.Load() >= 3 {
+		out.Flush()
+		os.Exit(0)
+	}
+	wait := hangAfter
+	if hangs.Load() > 0 {
+		wait = 30 * time.Second
+	}
 	ch := make(chan string, 1)
 	go func() {
 		defer func() {
@@ -55,7 +69,8 @@ func guarded(f func() string) string {
 	select {
 	case s := <-ch:
 		return s
-	case <-time.After(hangAfter):
+	case <-time.After(wait):
+		hangs.Add(1)
 		return "hang"
 	}
 }
@@ -334,7 +349,37 @@ func resolve(cur *jv, ptr string) *jv {
 	return nil
 }
 
+// RFC 6901 strictness: now and then a pointer loses its leading '/', an index token is
+// respelled non-canonically ("01", "+1", "-0", "-01"), or the root becomes the target
+func manglePtr(r *rng, p string) string {
+	if p == "" || !r.chance(1, 14) {
+		return p
+	}
+	i := strings.LastIndexByte(p, '/')
+	tok := p[i+1:]
+	num := tok != "" && strings.Trim(tok, "0123456789") == ""
+	switch k := r.n(10); {
+	case k < 3:
+		return p[1:]
+	case k < 8 && num:
+		return p[:i+1] + r.pick([]string{"0" + tok, "+" + tok, "-0" + tok, "00" + tok, "-0"})
+	case k < 9:
+		return ""
+	}
+	return p
+}
+
 func genOp(r *rng, cur *jv, c genCfg) opSpec {
+	op := genOp0(r, cur, c)
+	op.path = manglePtr(r, op.path)
+	if op.from != nil {
+		f := manglePtr(r, *op.from)
+		op.from = &f
+	}
+	return op
+}
+
+func genOp0(r *rng, cur *jv, c genCfg) opSpec {
 	k := r.n(100)
 	val := func() *jv {
 		if r.chance(1, 5) {
